@@ -32,7 +32,68 @@ PROSE = [
     "callable or `compile`", "a `os`.`system` thing", "`print`", "`quit`", "`exit` or `help`", "str or `input`",
 ]
 KINDS = ("docstring_parse", "ir_emit_parse", "module_parse", "doctrans", "gen", "sync", "sync_properties",
-         "docstring_prose", "selftest_input_eval")
+         "docstring_prose", "selftest_input_eval", "route_docstring")
+# scalars for the OpenAPI ```yml block of a route docstring: YAML's python-specific tags name callables / modules
+YAML_PAYLOADS = [
+    '!!python/object/apply:os.system ["touch SENTINEL_yaml_system"]',
+    '!!python/object/apply:builtins.open ["SENTINEL_yaml_open", "w"]',
+    '!!python/object/apply:subprocess.Popen [["touch", "SENTINEL_yaml_popen"]]',
+    "!!python/module:canary_mod",
+    "!!python/name:canary_mod.x",
+    '!!python/object/apply:builtins.eval ["__import__(\'canary_mod\')"]',
+    '!!python/object/new:os.system ["true"]',
+    '!!python/object/apply:importlib.import_module ["canary_mod"]',
+    "!!python/name:os.system",
+    "!!python/object:socket.socket {}",
+]
+ROUTE_TPL = '''
+@rest_api.%(method)s("/api/%(lname)s/:%(pk)s")
+def %(fname)s(%(pk)s):
+    """
+    Find one `%(name)s` or error
+
+    ```yml
+    responses:
+      '200':
+        description: %(p0)s
+        content:
+          application/json:
+            schema:
+              $ref: ```%(name)s```
+      '404':
+        description: A `ServerError` object.
+        content:
+          application/json:
+            schema:
+              $ref: ```ServerError```
+    %(extra_key)s: %(p1)s
+    ```
+
+    :param %(pk)s: The primary key of `%(name)s`. Defaults to ```%(code)s```
+    :type %(pk)s: ```str```
+
+    :return: Found `%(name)s` (as a dict) or error dict
+    :rtype: ```dict```
+    """
+    return {}
+'''
+ROUTE_MODEL_TPL = '''
+from sqlalchemy import Column, String
+from sqlalchemy.orm import declarative_base
+
+Base = declarative_base()
+
+
+class %(name)s(Base):
+    """
+    %(name)s table
+
+    :cvar %(pk)s: the key. Defaults to ```%(code)s```
+    """
+    __tablename__ = "%(lname)s"
+
+    %(pk)s = Column(String, primary_key=True, comment="the key", default=%(code)s)
+'''
 STYLES = ("rest", "google", "numpydoc")
 
 
@@ -48,6 +109,8 @@ def preload():
     import cdd.compound.openapi.gen_routes  # noqa
     import cdd.compound.exmod  # noqa
     import cdd.routes.parse.bottle  # noqa
+    import yaml  # noqa
+    import yaml.constructor  # noqa
 
 
 def adversarial_doc(r):
@@ -161,6 +224,29 @@ def build(i, r, scratch):
                     except Exception:
                         pass
         return {"kind": kind, "shown": repr(ir), "call": call}
+    if kind == "route_docstring":
+        import cdd.compound.openapi.gen_openapi
+        import cdd.routes.parse.bottle
+
+        name = r.choice(("Config", "Node", "Thing"))
+        benign = "Found `%s`" % name
+        ps = [r.choice(YAML_PAYLOADS), r.choice(YAML_PAYLOADS + [benign, benign])]
+        r.shuffle(ps)
+        fields = {"method": r.choice(("get", "delete")), "name": name, "lname": name.lower(),
+                  "pk": r.choice(("name", "ident", "key")), "fname": r.choice(("read", "destroy", "find_one")),
+                  "p0": ps[0], "p1": ps[1], "extra_key": r.choice(("x-extra", "summary", "tags", "externalDocs")),
+                  "code": r.choice(PAYLOADS)}
+        route_src, model_src = ROUTE_TPL % fields, ROUTE_MODEL_TPL % fields
+        ast.parse(route_src), ast.parse(model_src)
+        pr, pm = write(scratch, "routes_%d.py" % i, route_src), write(scratch, "models_%d.py" % i, model_src)
+
+        def call():
+            try:
+                cdd.routes.parse.bottle.bottle(ast.parse(route_src).body[0])
+            except Exception:
+                pass
+            cdd.compound.openapi.gen_openapi.openapi_bulk(app_name="rest_api", model_paths=[pm], routes_paths=[pr])
+        return {"kind": kind, "shown": route_src, "call": call}
     src = adversarial_module(r, scratch)
     ast.parse(src)
     if kind == "module_parse":
